@@ -11,6 +11,7 @@
 #include <deque>
 #include <vector>
 #include <string>
+#include <climits>
 extern "C" {
 #include "os_base.h"
 #include <qb/qbloop.h>
@@ -22,8 +23,8 @@ void verif_random_reset(uint32_t);
 
 const char *verif_property = "C10";
 const char *verif_class_names[] = { "all_levels_busy_9_iterations", "higher_level_saturated", "jobs", "descriptors", "timers", "source_joined_midrun", "source_left_midrun",
-	"nine_or_more_on_one_level", "job_only_level", "descriptor_moved_and_removed", NULL };
-enum { K_BUSY9, K_SAT, K_JOBS, K_FDS, K_TIMERS, K_JOIN, K_LEAVE, K_NINE, K_JOBONLY, K_MODDEL };
+	"nine_or_more_on_one_level", "job_only_level", "descriptor_moved_and_removed", "descriptor_moved_and_kept", NULL };
+enum { K_BUSY9, K_SAT, K_JOBS, K_FDS, K_TIMERS, K_JOIN, K_LEAVE, K_NINE, K_JOBONLY, K_MODDEL, K_MODKEEP };
 const char *verif_rule =
 	"case = initial sources (self-re-adding jobs, always-readable pipes, zero-delay re-arming timers; 0..10 per priority) plus join/leave decisions taken inside callbacks, 30-300 loop iterations; "
 	"non-trivial = all three levels continuously busy for >= 9 iterations with a higher level saturated (>= 5 sources); distinct = hash of decoded workload";
@@ -34,7 +35,9 @@ size_t verif_max_size = 200;
 size_t verif_min_size = 10;
 
 enum { S_JOB, S_FD, S_TIMER };
-struct source { int kind, prio; bool active; int rfd, wfd; int armed_iter; /* iteration in which it was (re)armed */ int left_iter; int joined_iter; int id; };
+struct source { int kind, prio; bool active; int rfd, wfd; int armed_iter; /* iteration in which it was (re)armed */ int left_iter; int joined_iter; int id;
+	int last_seen, max_gap, gap_at; bool moved_pending; int move_idx; };
+static std::vector<std::pair<int, int>> MOVES;	/* iterations around a priority move of a descriptor: the level-by-level analysis skips them (the entry may still be served from its old level's queue) */
 static std::deque<source> SRC;
 static qb_loop_t *L;
 static struct verif_report *R;
@@ -45,6 +48,14 @@ static std::vector<std::vector<int>> DISP;	/* DISP[level] = iterations in which 
 static void arm(source &s);
 static int32_t fd_cb(int32_t fd, int32_t revents, void *data);
 static void add_source(int kind, int prio);
+
+/* every source is continuously ready: how long did this one wait since it was last served? */
+static void seen(source &s)
+{
+	int gap = iterations - s.last_seen;
+	if (gap > s.max_gap) { s.max_gap = gap; s.gap_at = iterations; }
+	s.last_seen = iterations;
+}
 
 static void maybe_churn(source &self)
 {
@@ -64,19 +75,36 @@ static void maybe_churn(source &self)
 			break;
 		}
 	}
+	else if (k % 16 == 3) {
+		/* another descriptor source is moved to a different priority and stays (it may be queued for dispatch at this moment): it must go on being served */
+		for (auto &o : SRC) if (&o != &self && o.kind == S_FD && o.active) {
+			int np = (o.prio + 1 + (int)(vr_u8(&V) % 2)) % 3;
+			churn_budget--;
+			seen(o);
+			SRC.push_back(o);	/* for the level analysis a move is a leave plus a join */
+			source &n = SRC.back();
+			n.prio = np; n.joined_iter = iterations; n.id = (int)SRC.size() - 1; n.last_seen = iterations; n.max_gap = 0; n.moved_pending = true; n.move_idx = (int)MOVES.size();
+			MOVES.push_back(std::make_pair(iterations - 2, INT_MAX));
+			o.active = false; o.left_iter = iterations; o.rfd = o.wfd = -1;
+			if (qb_loop_poll_mod(L, (enum qb_loop_priority)np, n.rfd, POLLIN, &n, fd_cb) != 0) { VFAIL(R, "poll-mod", "qb_loop_poll_mod of a registered descriptor failed"); return; }
+			VCLASS(R, K_MODKEEP);
+			VLOG(R, " [it %d] source %d (descriptor, level %d) is moved to level %d and is source %d from now on\n", iterations, o.id, o.prio, np, n.id);
+			break;
+		}
+	}
 }
 
 static void job_cb(void *data)
 {
 	source &s = *(source *)data;
-	DISP[s.prio].push_back(iterations);
+	DISP[s.prio].push_back(iterations); seen(s);
 	maybe_churn(s);
 	if (s.active) arm(s);
 }
 static void timer_cb(void *data)
 {
 	source &s = *(source *)data;
-	DISP[s.prio].push_back(iterations);
+	DISP[s.prio].push_back(iterations); seen(s);
 	maybe_churn(s);
 	if (s.active) arm(s);
 }
@@ -84,7 +112,9 @@ static int32_t fd_cb(int32_t fd, int32_t revents, void *data)
 {
 	(void)fd; (void)revents;
 	source &s = *(source *)data;
-	DISP[s.prio].push_back(iterations);
+	seen(s);
+	if (s.moved_pending) { s.moved_pending = false; MOVES[s.move_idx].second = iterations + 3; }	/* possibly served from the queue of the level it came from */
+	else DISP[s.prio].push_back(iterations);
 	maybe_churn(s);
 	if (!s.active) { qb_loop_poll_del(L, s.rfd); return 0; }
 	s.armed_iter = iterations;
@@ -102,7 +132,7 @@ static void add_source(int kind, int prio)
 {
 	/* one epoll_wait harvests at most 12 events: with more descriptors ready than that, which of them get queued in an iteration is the kernel's choice, not the loop's */
 	if (kind == S_FD) { int nfd = 0; for (auto &o : SRC) if (o.kind == S_FD && o.active) nfd++; if (nfd >= 11) kind = S_TIMER; }
-	SRC.push_back(source{ kind, prio, true, -1, -1, iterations, -1, iterations, (int)SRC.size() });
+	SRC.push_back(source{ kind, prio, true, -1, -1, iterations, -1, iterations, (int)SRC.size(), iterations, 0, 0, false, -1 });
 	source &s = SRC.back();
 	if (kind == S_FD) {
 		int pfd[2]; if (pipe(pfd)) { s.active = false; return; }
@@ -127,7 +157,7 @@ extern "C" void verif_init(void) {}
 extern "C" int verif_case(const uint8_t *data, size_t size, struct verif_report *r)
 {
 	vr_init(&V, data, size);
-	R = r; SRC.clear(); DISP.assign(3, std::vector<int>());
+	R = r; SRC.clear(); MOVES.clear(); DISP.assign(3, std::vector<int>());
 	iterations = 0; max_iter = 30 + vr_u16(&V) % 271; churn_budget = vr_u8(&V) % 12;
 	verif_random_reset(vr_u8(&V));
 	vclock_enable(1); vclock_set_mono(1000000000ULL); vclock_set_real(1700000000ULL * 1000000000ULL);
@@ -164,8 +194,10 @@ extern "C" int verif_case(const uint8_t *data, size_t size, struct verif_report 
 	int busy_run = 0, best_busy = 0; bool saturated = false;
 	for (int p = 0; p < 3; p++) { int n = 0; for (auto &s : SRC) if (s.prio == p && s.joined_iter == 0) n++; if (p > 0 && n >= 5) saturated = true; if (n && job_only[p]) VCLASS(r, K_JOBONLY); }
 	/* a source needs one iteration to get queued after joining/re-arming; skip the first two and the last iteration */
+	auto near_move = [&](int i) { for (auto &m : MOVES) if (i + 2 >= m.first && i <= m.second) return true; return false; };
 	for (int i = 3; i + 2 < iterations && !r->fail; i++) {
 		bool all = true;
+		if (near_move(i)) { busy_run = 0; continue; }
 		for (int p = 0; p < 3; p++) {
 			if (!active_over(p, i - 1, i + 2)) { all = false; continue; }
 			if (!did[p][i] && !did[p][i + 1] && !did[p][i + 2]) {
@@ -180,6 +212,20 @@ extern "C" int verif_case(const uint8_t *data, size_t size, struct verif_report 
 				VFAIL(r, "lower-level-preferred", "iteration %d dispatched at level %s but not at level %s, which has had a ready source since before iteration %d", i, q == 0 ? "LOW" : "MED", p == 2 ? "HIGH" : "MED", i - 2);
 				break;
 			}
+	}
+	/* ---- per source: every source is ready all the time it is active; a level serves its queue in FIFO order, 4 items per turn, and gets a turn at least every third iteration */
+	if (!r->fail) {
+		int ever[3] = { 0, 0, 0 };
+		for (auto &s : SRC) ever[s.prio]++;
+		for (auto &s : SRC) {
+			if (s.active) { int gap = iterations - s.last_seen; if (gap > s.max_gap) { s.max_gap = gap; s.gap_at = iterations; } }
+			int bound = 3 * ever[s.prio] + 6;
+			if (s.max_gap > bound) {
+				VFAIL(r, "source-starved", "source %d (%s, level %s) was ready all the time but was not served for %d iterations (up to iteration %d); its level has had %d source(s) in all, so %d iterations is the longest a FIFO queue served 4 at a time every third iteration can take",
+				      s.id, s.kind == S_JOB ? "job" : s.kind == S_FD ? "descriptor" : "timer", s.prio == 2 ? "HIGH" : s.prio == 1 ? "MED" : "LOW", s.max_gap, s.gap_at, ever[s.prio], bound);
+				break;
+			}
+		}
 	}
 	if (best_busy >= 9) VCLASS(r, K_BUSY9);
 	if (saturated) VCLASS(r, K_SAT);
